@@ -27,23 +27,26 @@ type member struct {
 	out  chan presp
 	busy bool
 	wins int
+	closing bool
 }
 
 type Portfolio struct {
 	ms    []*member
 	stats SolverStats
 	Wins  map[string]int
+	stagger time.Duration
+	deadline time.Time // after this instant every query is answered unknown (instance time budget)
 }
 
 func NewPortfolio(ts *TermStore, kinds []string, timeoutMs int) *Portfolio {
-	p := &Portfolio{Wins: map[string]int{}}
+	p := &Portfolio{Wins: map[string]int{}, stagger: 150 * time.Millisecond}
 	for _, k := range kinds {
 		m := &member{s: NewSolver(ts, k, timeoutMs), in: make(chan pquery), out: make(chan presp, 1)}
 		p.ms = append(p.ms, m)
 		go func() {
 			for q := range m.in {
 				t0 := time.Now()
-				res, mod := m.s.Check(q.pc, q.extra, q.wantModel, q.vars)
+				res, mod := safeCheck(m, ts, timeoutMs, q)
 				m.out <- presp{res, mod, time.Since(t0)}
 			}
 		}()
@@ -55,6 +58,7 @@ func (p *Portfolio) Close() {
 	for _, m := range p.ms {
 		if m.busy {
 			// abandoned query still running: kill the process, the reader goroutine ends with it
+			m.closing = true
 			m.s.cmd.Process.Kill()
 			go func(m *member) { defer func() { recover() }(); <-m.out }(m)
 		}
@@ -76,6 +80,11 @@ func (p *Portfolio) waitAny(idx []int) (int, presp) {
 
 func (p *Portfolio) Check(pc []*Term, extra *Term, wantModel bool, vars []*Term) (Res, Model) {
 	t0 := time.Now()
+	if !p.deadline.IsZero() && t0.After(p.deadline) {
+		p.stats.Queries++
+		p.stats.Unknown++
+		return Unknown, nil
+	}
 	q := pquery{append([]*Term(nil), pc...), extra, wantModel, append([]*Term(nil), vars...)}
 	// free members whose abandoned query has finished
 	for _, m := range p.ms {
@@ -96,14 +105,39 @@ func (p *Portfolio) Check(pc []*Term, extra *Term, wantModel bool, vars []*Term)
 		}
 	}
 	res, mod := Unknown, Model(nil)
+	send := func(i int) {
+		p.ms[i].in <- q
+		p.ms[i].busy = true
+	}
+	// staggered race: the first idle member gets the query alone; the others join after a short delay,
+	// so that the (vast majority of) easy queries do not burn a second core.
 	asked := func(set []int) bool {
-		for _, i := range set {
-			p.ms[i].in <- q
-			p.ms[i].busy = true
-		}
-		waiting := append([]int(nil), set...)
+		send(set[0])
+		waiting := []int{set[0]}
+		rest := append([]int(nil), set[1:]...)
+		timer := time.NewTimer(p.stagger)
+		defer timer.Stop()
 		for len(waiting) > 0 {
-			i, r := p.waitAny(waiting)
+			var i int
+			var r presp
+			if len(rest) > 0 {
+				got := false
+				select {
+				case r = <-p.ms[waiting[0]].out:
+					i, got = waiting[0], true
+				case <-timer.C:
+				}
+				if !got {
+					for _, k := range rest {
+						send(k)
+						waiting = append(waiting, k)
+					}
+					rest = nil
+					continue
+				}
+			} else {
+				i, r = p.waitAny(waiting)
+			}
 			p.ms[i].busy = false
 			for k, w := range waiting {
 				if w == i {
@@ -116,6 +150,13 @@ func (p *Portfolio) Check(pc []*Term, extra *Term, wantModel bool, vars []*Term)
 				p.ms[i].wins++
 				p.Wins[p.ms[i].s.kind]++
 				return true // members still in `waiting` stay busy with the abandoned query
+			}
+			if len(waiting) == 0 && len(rest) > 0 {
+				for _, k := range rest {
+					send(k)
+					waiting = append(waiting, k)
+				}
+				rest = nil
 			}
 		}
 		return false
@@ -147,4 +188,24 @@ func (p *Portfolio) Check(pc []*Term, extra *Term, wantModel bool, vars []*Term)
 		p.stats.Unknown++
 	}
 	return res, mod
+}
+
+// safeCheck shields the orchestrator from a solver process that died (killed or crashed): the query is
+// inconclusive for that member and the process is restarted for the next one.
+func safeCheck(m *member, ts *TermStore, timeoutMs int, q pquery) (res Res, mod Model) {
+	defer func() {
+		if r := recover(); r != nil {
+			res, mod = Unknown, nil
+			if !m.closing {
+				kind := m.s.kind
+				func() { defer func() { recover() }(); m.s.cmd.Process.Kill(); m.s.cmd.Wait() }()
+				m.s = NewSolver(ts, kind, timeoutMs)
+			}
+		}
+	}()
+	// hard watchdog: z3's :timeout is soft and sometimes ignored inside bit-blasting
+	proc := m.s.cmd.Process
+	wd := time.AfterFunc(time.Duration(timeoutMs)*time.Millisecond*3/2+5*time.Second, func() { proc.Kill() })
+	defer wd.Stop()
+	return m.s.Check(q.pc, q.extra, q.wantModel, q.vars)
 }
